@@ -292,5 +292,16 @@ pub fn ack_programs() -> Vec<Program> {
     for (name, setup, threads) in cases {
         v.push(Program { name: format!("ack:{name}"), cfg, tables: t.clone(), setup, threads, observe: vec![K, U] });
     }
+    // two workers: one worker's retirement pass runs between the other's queueing of an
+    // old extent and the write of the generation that replaces it
+    let mut two = cfg;
+    two.workers = 2;
+    let cases2: Vec<(&str, Vec<Op>, Vec<Vec<Op>>)> = vec![
+        ("2workers:overwrite;overwrite;flush|insert-other;flush", vec![ins(K, V1), Op::Flush], vec![vec![ins(K, V1B), ins(K, V1), Op::Flush], vec![ins(U, VU1), Op::Flush]]),
+        ("2workers:overwrite;overwrite;tick|insert-other;tick", vec![ins(K, V1), Op::Flush], vec![vec![ins(K, V1B), ins(K, V1), Op::Tick], vec![ins(U, VU1), Op::Tick]]),
+    ];
+    for (name, setup, threads) in cases2 {
+        v.push(Program { name: format!("ack:{name}"), cfg: two, tables: t.clone(), setup, threads, observe: vec![K, U] });
+    }
     v
 }
